@@ -799,3 +799,17 @@ func (AppFirst) Choose(p *Point) int {
 //
 //go:norace
 func (AppFirst) Pick(n int, what string) int { return 0 }
+
+// StepBudget restarts the step counter with a new budget: harnesses that feed
+// many independent inputs into one execution give each input its own budget,
+// so that "loops forever" is detected quickly and attributed to the input.
+//
+//go:norace
+func StepBudget(n int) {
+	e := cur
+	if e == nil {
+		return
+	}
+	e.steps = 0
+	e.opts.MaxSteps = n
+}
